@@ -155,8 +155,8 @@ CHECKS["C01"] = {
     "pkg": "c01",
     "level": "exploration",
     "technique": "model-based generation of concurrent transaction programs with RPC-level interleaving gates and tolerated faults on a simulated cluster; oracle = history invariants (snapshot isolation, write-write exclusion, locking reads, inserts, external consistency) checked against the store's raw MVCC truth",
-    "level_text": "Thousands of generated programs per run (2-4 transactions, all client APIs, both transaction kinds, region layouts, batch sizes, leader moves, region errors, and gates that run another transaction's step while a prewrite/commit/lock RPC is parked) are executed on an in-process cluster with a virtual clock; afterwards all locks are expired and resolved and every recorded read, acknowledgement and commit interval is checked against the final MVCC records. Interleavings are owned at RPC granularity, not at instruction granularity; absence of violations is not a proof.",
-    "level_note": "Trusted: mocktikv (itself checked by C12) and TiDB's unistore as store implementations; the history checker (harness/sim/history.go); locks are expired by advancing the virtual TSO clock.",
+    "level_text": "Thousands of generated programs per run (2-4 transactions, all client APIs, both transaction kinds, region layouts, batch sizes, leader moves, region errors, and gates that run another transaction's step while a prewrite/commit/lock RPC is parked) are executed on an in-process cluster with a virtual clock; afterwards all locks are expired and resolved and every recorded read, acknowledgement and commit interval is checked against the final MVCC records; the same rules are evaluated on histories in which a committing client is killed at a swept request position (generator of C02) and other clients recover. One class of violation of the insert clause is a listed known finding (replayed by TestKnownFindings, excluded and counted in the search). Interleavings are owned at RPC granularity, not at instruction granularity; absence of violations is not a proof.",
+    "level_note": "Trusted: mocktikv (itself checked by C12) and TiDB's unistore as store implementations; the history checker (harness/sim/history.go); locks are expired by advancing the virtual TSO clock (mocktikv) or by skewing the clients' clock (unistore).",
     "tests": [
         {"name": "TestHistories", "quick": 600, "thorough": 6000, "shards": 16, "timeout_q": 400},
         {"name": "TestHistoriesUni", "quick": 400, "thorough": 4000, "shards": 16, "timeout_q": 400},
@@ -223,7 +223,7 @@ CHECKS["C06"] = {
     "pkg": "c06",
     "level": "exploration",
     "technique": "model-based generation of concurrent transaction programs (lock calls with all options, aggressive-locking attempts, failing statements, commits and rollbacks, region errors and topology changes at gates, no lost message); oracle = invariant over the final store state: no lock of an ended transaction, checked without expiring any lock",
-    "level_text": "Thousands of generated programs per run on mocktikv (incl. aggressive locking, deadlocks through the mock's detector) and unistore (async commit / 1PC). The store is scanned after every program; a lock is reported only if it is still present after 5 s of polling with no RPC in flight.",
+    "level_text": "Thousands of generated programs per run on mocktikv (deadlocks through the mock's detector) and unistore (async commit / 1PC, locked-with-conflict results), both with aggressive-locking statement attempts. The store is scanned after every program; a lock is reported only if it is still present after 5 s of polling with no RPC in flight.",
     "level_note": "Trusted: mocktikv / unistore; drain detection by RPC silence plus polling.",
     "tests": [
         {"name": "TestNoLeftoverLocks", "quick": 500, "thorough": 6000, "shards": 16, "timeout_q": 400},
